@@ -106,7 +106,14 @@ def Supply.next (s : Supply) : Lbl × Supply :=
     than as the text of the number 4 (`new str(4)`) -/
 def strInit (fresh : Bool) : Bytes := if fresh then [] else [52]
 
-mutual
+/-- the loop of `ScriptConstArrayHolder::Archive` over the elements, `rv` loading one element variable -/
+def readElemsWith (rv : Lbl → Supply → RS → Res (Value × Supply)) :
+    Nat → Supply → RS → Res (List (Lbl × Value) × Supply)
+  | 0, sup, s => .ok ([], sup) s
+  | n + 1, sup, s =>
+    (rv sup.next.1 sup.next.2 s).bind fun r s =>
+      (readElemsWith rv n r.2 s).bind fun r2 s => .ok ((sup.next.1, r.1) :: r2.1, r2.2) s
+
 /-- `v.ArchiveInternal(arc)` in read mode (fuel bounds the nesting depth) -/
 def readValue (cfg : Cfg) : Nat → Lbl → Supply → RS → Res (Value × Supply)
   | 0, _, _, s => .err .uninit s          -- not reached when fuel ≥ stream length (see Driver)
@@ -130,15 +137,14 @@ def readValue (cfg : Cfg) : Nat → Lbl → Supply → RS → Res (Value × Supp
         (readData cfg (Prim.bool).tag 1 none s).bind fun nb s =>
           if unle nb = 0 then (readPtr cfg false s).bind fun i s => .ok (.constArrayRef i, sup) s
           else
-            let (h, sup) := sup.next
             (readData cfg (Prim.pos).tag 4 (some (zeros 4)) s).bind fun pb s =>
-            (addAt cfg (unle pb) h s).bind fun _ s =>
+            (addAt cfg (unle pb) sup.next.1 s).bind fun _ s =>
             (readPrim cfg .u32 s).bind fun rc s =>
             -- `uint32_t sz32;` uninitialised
             (readData cfg (Prim.u32).tag 4 none s).bind fun szb s =>
               if (unle szb + 1) * svSize ≥ cfg.allocLimit then .err .alloc s
-              else (readElems cfg fuel (unle szb) sup s).bind fun (es, sup) s =>
-                .ok (.constArray h rc es, sup) s
+              else (readElemsWith (readValue cfg fuel) (unle szb) sup.next.2 s).bind fun r s =>
+                .ok (.constArray sup.next.1 rc r.1, r.2) s
       | 13 =>
         -- `new float[3]` is uninitialised; `ArchiveElements` reads the whole array three times
         (readData cfg rawTag 12 none s).bind fun b1 s =>
@@ -148,13 +154,6 @@ def readValue (cfg : Cfg) : Nat → Lbl → Supply → RS → Res (Value × Supp
       -- Ref/Container (7, 10): a plain pointer; Array, SafeContainer, Pointer: not modelled;
       -- any other byte: `default: break`
       | _ => .ok (.none, sup) s
-def readElems (cfg : Cfg) : Nat → Nat → Supply → RS → Res (List (Lbl × Value) × Supply)
-  | _, 0, sup, s => .ok ([], sup) s
-  | fuel, n + 1, sup, s =>
-    let (l, sup) := sup.next
-    (readValue cfg fuel l sup s).bind fun (v, sup) s =>
-      (readElems cfg fuel n sup s).bind fun (es, sup) s => .ok ((l, v) :: es, sup) s
-end
 
 end Morfuse.Archive
 
@@ -184,8 +183,8 @@ def readW (cfg : Cfg) (classes : List Bytes) (fuel : Nat) : List WSch → RS →
   | .item c :: cs, s =>
     (readItem cfg classes c s).bind fun i s => (readW cfg classes fuel cs s).bind fun is s => .ok (.item i :: is) s
   | .value self sup :: cs, s =>
-    (readValue cfg fuel self sup s).bind fun (v, _) s =>
-      (readW cfg classes fuel cs s).bind fun is s => .ok (.value self v :: is) s
+    (readValue cfg fuel self sup s).bind fun r s =>
+      (readW cfg classes fuel cs s).bind fun is s => .ok (.value self r.1 :: is) s
 
 def look (table : List Lbl) (i : Nat) : Lbl := if i = 0 then 0 else table.getD (i - 1) 0
 
